@@ -1,6 +1,6 @@
 (* C20: risk caps and configuration bounds under any update sequence.  Statements only. *)
 From MP.Model Require Import Prelude U128 SInt Feed Vamm VammOps Token World Engine Runtime.
-From MP.Proofs Require Import Tactics SIntFacts ConfigFacts ConfigReachFacts.
+From MP.Proofs Require Import Tactics SIntFacts ConfigFacts ConfigReachFacts LimitTxFacts CapsTxFacts.
 
 (* instantiate establishes the engine bounds: every ratio in [0, 1], maintenance <= initial *)
 Theorem C20_engine_instantiate : forall s p i fpool d init maint liqfee e,
@@ -78,3 +78,17 @@ Theorem C20_config_initial : forall w,
   ecfg_ok (ec (w_eng w)) -> (forall v vm, zfind v (w_vamms w) = Some vm -> vcfg_ok (vc vm)) -> if_vamms (w_if w) = [] -> c20_inv w.
 Proof. exact c20_initial. Qed.
 Print Assumptions C20_config_initial.
+
+(* END TO END, caps, on the opening / increasing route (no position yet, or an order on the position's own side):
+   after a successful OpenPosition by a trader who is not whitelisted, the engine's open interest is at or below a
+   non-zero open-interest cap, and the trader's size at or below a non-zero holding cap.  (The re-opening leg of a
+   reversal goes through the same reply arm; its transaction-level statement is not proved.) *)
+Theorem C20_open_increase_tx_caps : forall f w t v s m l lim funds w' vm,
+  exec_op f w (OEngine t (EOpenPosition v s m l lim) funds) = Ok w' ->
+  get_vamm w v = Ok vm ->
+  is_increase_of (get_position (w_eng w) (w_env w) v t s) s = true ->
+  is_whitelisted w t = false -> 0 <= e_oi (es (w_eng w)) -> 0 <= m -> 0 <= l -> 0 < e_dec (ec (w_eng w)) ->
+  (0 < v_oi_cap (vc vm) -> e_oi (es (w_eng w')) <= v_oi_cap (vc vm)) /\
+  (v_hold_cap (vc vm) <> 0 -> exists p', find_position (w_eng w') v t = Some p' /\ sval (p_size p') <= v_hold_cap (vc vm)).
+Proof. exact open_increase_tx_caps. Qed.
+Print Assumptions C20_open_increase_tx_caps.
